@@ -200,6 +200,26 @@ pub fn c15(thorough: bool, rng: &mut Rng, out: &mut Out) {
         }
         read_case(out, k + 1, evs, true);
     }
+    // very long lines: line noise without a line feed, far longer than any frame, is still ONE line — it is
+    // consumed through its line feed and the frame behind it is the next read's (a cap on the line buffer shows)
+    let mut longs: Vec<usize> = vec![600, 4096, 65537];
+    if thorough {
+        longs.extend_from_slice(&[1 << 20, (1 << 20) + 5, (1 << 21) + 1]);
+    } else {
+        longs.push((1 << 20) + 5);
+    }
+    for n in longs {
+        let mut evs: Vec<String> = vec![];
+        let noise: Vec<u8> = (0..n).map(|i| { let b = (i as u32).wrapping_mul(2654435761).to_le_bytes()[2]; if b == 0x0A { 0x0B } else { b } }).collect();
+        for c in noise.chunks(65536) {
+            evs.push(format!("d:{}", hex_of(c)));
+        }
+        evs.push("d:0A".into());
+        evs.push(format!("d:{}", hex_of(&f0)));
+        evs.push("d:51".into());
+        out.stat("read.very-long-line");
+        read_case(out, 3, evs, true);
+    }
     // ---- write
     let frames: Vec<(u16, u8, Vec<u8>)> = vec![(0x7F, 2, vec![]), (0xABCD, 0, vec![1, 2, 3])];
     for (a, t, d) in &frames {
@@ -354,6 +374,27 @@ fn reply_tapes(rng: &mut Rng) -> Vec<(String, Vec<u8>)> {
     v.push(("err".into(), b":01000304FF00\r\n".to_vec())); // bad checksum
     v.push(("err".into(), vec![])); // nothing: timeout / end of stream
     v.push(("err".into(), b"\r\n".to_vec()));
+    // near misses of a valid reply: white space (ASCII and Unicode) or a stray byte between the checksum and
+    // the line feed, a doubled carriage return, leading blanks — none of them is a frame line
+    let good = msg_wire(&Message::ReportState(Address(3), State::ConfigReceived));
+    let body = &good[..good.len() - 2];
+    for junk in [&b" "[..], b"\t", b"\r", b"\x0B", b"\x0C", b"  ", b"\xC2\x85", b"\xC2\xA0", b"\xE2\x80\xA8", b"\x00", b"\x1C"] {
+        let mut t = body.to_vec();
+        t.extend_from_slice(junk);
+        t.extend_from_slice(b"\r\n");
+        v.push(("err".into(), t));
+        if junk != b"\r" {
+            let mut t = body.to_vec();
+            t.extend_from_slice(junk);
+            t.extend_from_slice(b"\n");
+            v.push(("err".into(), t));
+        }
+    }
+    for lead in [&b" "[..], b"\t", b"\x00", b"\r"] {
+        let mut t = lead.to_vec();
+        t.extend_from_slice(&good);
+        v.push(("err".into(), t));
+    }
     let _ = rng;
     v
 }
@@ -664,7 +705,9 @@ pub fn c18(thorough: bool, rng: &mut Rng, out: &mut Out) {
 /// constructors and the direct call, over a sample of prior settings: the constructor must return the error.
 fn c20_error_kinds(thorough: bool, out: &mut Out) {
     let priors = ["0,1,2,1,1", "7,3,0,0,0", "6,2,1,1,2", "o0,0,2,1,1", "10,3,0,1,0", "3,1,1,0,2"];
-    for kind in ['n', 'v', 'i', 't', 'o', 'w', 'p'] {
+    let mut kinds: Vec<char> = vec!['n', 'v', 'i', 't', 'o', 'w', 'p'];
+    kinds.extend((0..crate::iomock::IO_KINDS.len()).map(|k| (b'A' + k as u8) as char));
+    for kind in kinds {
         for fail in ["read", "baud", "write", "timeout"] {
             for entry in ["serial", "odk", "cfg:1234"] {
                 for (k, prior) in priors.iter().enumerate() {
@@ -891,6 +934,53 @@ pub fn c17(thorough: bool, rng: &mut Rng, out: &mut Out) {
                     if rs_.len() != 2 || (!first_ok && !rs_[0].starts_with("comm w=-")) || !rs_[1].starts_with("ok w=3A") {
                         out.fail(i, format!("C17 after an unterminated fragment the next line must be forwarded and answered: '{}'", trunc(&got)));
                     }
+                }
+            }
+        }
+    }
+    // frames of every data length 0..=255 at the bridge, each followed by a line that must be answered: the longest
+    // legal line (255 data bytes, 523 bytes on the wire) is one line like any other; and line noise of every length
+    // around that size (and far beyond) is exactly one undecodable line
+    {
+        let a = 3u16;
+        let hello = enc_nl(a, 2, &[0xFF]);
+        for len in 0..=255usize {
+            if !thorough && len > 20 && len < 240 && len % 16 != 0 {
+                continue;
+            }
+            for ty in [0u8, 0x42] {
+                let d: Vec<u8> = (0..len).map(|i| (i * 11 + len) as u8).collect();
+                let mut stream = enc_nl(0x0100, ty, &d);
+                stream.extend_from_slice(&hello);
+                let line = format!("odk 3 M,{:04X};A,{:04X} | d:{} |", a, a + 9, hex_of(&stream));
+                let i = out.case(line, true);
+                out.stat("odk.every-length-then-line");
+                let got = out.impls[i].clone();
+                let parts: Vec<&str> = got.split(" | ").collect();
+                let rs_: Vec<&str> = parts.first().map(|p| p.split(" ; ").collect()).unwrap_or_default();
+                if rs_.len() != 3 || !rs_[0].starts_with("ok w=-") || !rs_[1].starts_with("ok w=3A") {
+                    out.fail(i, format!("C17 a {}-byte frame followed by a query: the frame must be forwarded silently and the query answered next: '{}'", len, trunc(&got)));
+                }
+            }
+        }
+        let mut noise_lens: Vec<usize> = (505..=540).collect();
+        noise_lens.extend_from_slice(&[1, 100, 1000, 1042, 1046, 5000, 70000]);
+        for n in noise_lens {
+            for colon in [false, true] {
+                let mut stream: Vec<u8> = (0..n).map(|i| b"0123456789ABCDEF"[(i * 7 + n) % 16]).collect();
+                if colon {
+                    stream[0] = b':';
+                }
+                stream.extend_from_slice(b"\r\n");
+                stream.extend_from_slice(&hello);
+                let line = format!("odk 3 M,{:04X};A,{:04X} | d:{} |", a, a + 9, hex_of(&stream));
+                let i = out.case(line, true);
+                out.stat("odk.noise-length-then-line");
+                let got = out.impls[i].clone();
+                let parts: Vec<&str> = got.split(" | ").collect();
+                let rs_: Vec<&str> = parts.first().map(|p| p.split(" ; ").collect()).unwrap_or_default();
+                if rs_.len() != 3 || !rs_[0].starts_with("comm w=-") || !rs_[1].starts_with("ok w=3A") {
+                    out.fail(i, format!("C17 {} bytes of line noise then a query: one communication error, then the query answered: '{}'", n, trunc(&got)));
                 }
             }
         }
